@@ -42,6 +42,8 @@ def case_hash(ops):
 def run(prop, components, tier, lean_targets=(), level_text="", assumptions=(), replay=None, partial_note=""):
     t0 = time.time()
     seed = vlib.seed()
+    vlib.CURRENT_PROP[0] = prop
+    vlib.OTHER.clear()
     # all minimisation of one run shares a wall-clock allowance (a failing case is reported unminimised beyond it)
     vlib.MINIMISE_DEADLINE[0] = None
     minimise_allowance = 240 if tier == "quick" else 1500
@@ -214,7 +216,7 @@ def run(prop, components, tier, lean_targets=(), level_text="", assumptions=(), 
         rule="cases = corpus + seeded op sequences from the driver's generator (sizes biased to the property's boundaries); a case counts as distinct non-trivial when its op list is unique and it reached a boundary state (component-specific: wrap, growth, full buffer, switch-over, relocation, ...)",
         samples=samples or [{"note": "no passing sample recorded"}],
         disagreements_checked=disagreements_checked,
-        input_distribution=dist,
+        input_distribution=dict(dist, **({"oracle messages of other properties (left to their checks)": str(dict(vlib.OTHER))} if vlib.OTHER else {})),
         proof_scope=level_text, partial=partial_note,
         broken=st["broken"], known_findings=sorted(known_hit),
         leanchecker=st.get("leanchecker"),
